@@ -20,8 +20,15 @@ PROPS["C16"] = {
                     "that share a consumed prefix",
                     "built with the repository's Arduino stubs (extras/tests/Helpers) and ARDUINOJSON_ENABLE_ARDUINO_{STRING,STREAM,PRINT}=1, ENABLE_PROGMEM=1"],
     "quick": [{"src": "checks/ix_stream.cpp", "mode": "stream", "arduino": True, "deps": ["checks/ix_stream.hpp"]},
-              {"src": "checks/ix_stream.cpp", "mode": "stream", "arduino": True, "deps": ["checks/ix_stream.hpp"], "defs": ["ARDUINOJSON_USE_DOUBLE=0"]}],
+              {"src": "checks/ix_stream.cpp", "mode": "stream", "arduino": True, "deps": ["checks/ix_stream.hpp"], "defs": ["ARDUINOJSON_USE_DOUBLE=0"]},
+              # the option builds: comments count as whitespace in front of a document, NaN / Infinity are number tokens
+              {"src": "checks/ix_stream.cpp", "mode": "stream", "arduino": True, "deps": ["checks/ix_stream.hpp"], "args": ["--fmt=json", "--docs=2"],
+               "defs": ["ARDUINOJSON_ENABLE_COMMENTS=1", "ARDUINOJSON_ENABLE_NAN=1", "ARDUINOJSON_ENABLE_INFINITY=1"]}],
     "thorough": [{"src": "checks/ix_stream.cpp", "mode": "stream", "arduino": True, "deps": ["checks/ix_stream.hpp"]},
-                 {"src": "checks/ix_stream.cpp", "mode": "stream", "arduino": True, "deps": ["checks/ix_stream.hpp"], "defs": ["ARDUINOJSON_USE_DOUBLE=0"]}],
+                 {"src": "checks/ix_stream.cpp", "mode": "stream", "arduino": True, "deps": ["checks/ix_stream.hpp"], "defs": ["ARDUINOJSON_USE_DOUBLE=0"]},
+                 {"src": "checks/ix_stream.cpp", "mode": "stream", "arduino": True, "deps": ["checks/ix_stream.hpp"], "args": ["--fmt=json"],
+                  "defs": ["ARDUINOJSON_ENABLE_COMMENTS=1", "ARDUINOJSON_ENABLE_NAN=1", "ARDUINOJSON_ENABLE_INFINITY=1"]},
+                 {"src": "checks/ix_stream.cpp", "mode": "stream", "arduino": True, "deps": ["checks/ix_stream.hpp"], "args": ["--fmt=json", "--docs=2"],
+                  "defs": ["ARDUINOJSON_DECODE_UNICODE=0"]}],
     "thorough_deadline": 860,
 }
